@@ -198,6 +198,7 @@ func runC02(c *Ctx, r *Report) {
 	}
 	r.floor("entries of the accent table", n, 300)
 	defer c02r3(c, r)
+	defer c02r5(c, r)
 	defer c13r3(c, r) // workers of a cancelled scan must be gone before their slabs are handed out again (crash otherwise)
 	defer func() {
 		r.rule("C02-R4", "H + A (shared with C03-R2)", "P1", "slab-independent bound on the pattern length before the int16 score matrices (and the slab-size headroom of C03-R2)", "matching crashes (index out of range in the back-trace) for a very long pattern when no slab / a larger slab is used")
@@ -343,6 +344,8 @@ func runC03(c *Ctx, r *Report) {
 		r.floor("alloc16 calls in FuzzyMatchV2", n, 3)
 	}
 	c03r3(c, r)
+	c05r9(c, r) // the recurrence reads only cells of this call: boundary cells of shifted windows are initialised
+	c02r5(c, r) // 'over the whole line': the pre-filter window must not cut off upper-case occurrences
 	mk := l.Fn("util", "MakeSlab")
 	r.curRule = "C03-R2"
 	nMk := 0
@@ -422,6 +425,8 @@ func runC05(c *Ctx, r *Report) {
 	}
 	c05r3(c, r)
 	c13r3(c, r)   // a cancelled scan joins its workers before the slabs are reused
+	c05r9(c, r)   // no score cell is read that this call did not write
+	c02r5(c, r)   // bytes vs runes: the byte-only pre-filter must not change the result
 	c04r3(c, r)   // order purity: merge must agree with the per-partition sort
 	c08r5(c, r)   // per-item tokens must not survive a change of --nth
 	c08r3(c, r)   // nth/denylist change invalidates caches and bumps the revision
